@@ -3,7 +3,10 @@
 A  lagrange_interpolate(xs, ys) against the exact-rational model (`approx.lagr`: the code's first barycentric
    form with node fix-up AND the plain Lagrange sum, proved equal to Mathlib's `Lagrange.interpolate`):
    |impl - exact| <= 1e-13 * sum_j |y_j l_j(x)| with the right-hand side computed exactly, exact equality at the
-   nodes, permuted node order, scalar / 1-D / 2-D / empty shapes.
+   nodes, permuted node order, scalar / 1-D / 2-D / empty shapes.  Usage axes (gen_approx: near_points / history_plans /
+   run_history): scalar queries in several containers next to nodes; several equally shaped queries on ONE interpolant with
+   every returned object kept (no copy), one overwritten by the caller, the query array refilled in place - every value
+   handed out is judged by the same clause against the exact interpolant; returned objects must not share memory.
 B  minimax_polynomial_coefficients(f, a, b, n, transform=T, atol=atol): the *exact* polynomial with the returned
    coefficients against the callable of minimax_polynomial_approximation(f, a, b, n, atol=atol):
    <= 0.05*err + 10*atol*max(1,max|f|) at grid points and Chebyshev nodes (exact rational difference), and on ALL of
@@ -105,6 +108,57 @@ def gen_queries(rng, xs, k):
     return [float(q) for q in qs if np.isfinite(q)]
 
 
+def misjudged(val, x, ev, la, node_val):
+    """the property's clause for one returned value: exact at a node, within 1e-13*sum_j|y_j l_j(x)| of the exact rational
+    interpolant elsewhere.  None if it holds, else (clause, expected, tolerance)."""
+    val = float(val)
+    if x in node_val:
+        if not (val == node_val[x]) or Fr(node_val[x]) != ev:
+            return "interpolant is not exact at a node", node_val[x], 0.0
+        return None
+    if not (val == val) or abs(val) == float("inf") or abs(Fr(val) - ev) > REL * la:
+        return ("interpolant differs from the exact rational interpolant by more than 1e-13*sum_j|y_j l_j(x)|",
+                float(ev), float(REL * la))
+    return None
+
+
+def usage_queries(xs, inp):
+    """how the returned callable is used (derived from the case only, so that a replay regenerates it): scalar queries at a
+    ladder of small distances from a few nodes, and call sequences whose results are kept across calls"""
+    hrng = G.case_rng("C18-usage", inp)
+    lo, hi = min(xs), max(xs)
+    w = (hi - lo) if hi > lo else max(1.0, abs(lo))
+    nodes = hrng.sample(list(xs), min(len(xs), 3))
+    near = G.near_points(nodes, w)
+    near = hrng.sample(near, min(len(near), 18))
+    pool = ([t[0] for t in hrng.sample(near, min(len(near), 6))] + hrng.sample(list(xs), min(len(xs), 2))
+            + [hrng.uniform(lo - 0.05 * w, hi + 0.05 * w) for _ in range(6)])
+    pool = [float(x) for x in pool if np.isfinite(x)]
+    ints = [x for x in xs if float(x).is_integer() and abs(x) < 2.0 ** 53][:2]
+    return near, ints, pool, G.history_plans(hrng, pool)
+
+
+def usage_probe(rep, p, near, ints, plans):
+    """evaluate p as a user would: scalars one at a time, and sequences whose results are kept; observations only"""
+    scal = []
+    for x, _i, d in near:
+        rep.count("lagr_scalar_query_distance_from_node=1e%d" % int(np.floor(np.log10(abs(d)) + 1e-9)))
+        for kind in G.SCALAR_KINDS:
+            rep.count("lagr_scalar_query_container=" + kind)
+            v = p(G.make_query(kind, (), [x]))
+            scal.append((x, kind, np.shape(v), float(v) if np.shape(v) == () else float("nan")))
+    for x in ints:
+        rep.count("lagr_scalar_query_container=pyint(at an integral node)")
+        v = p(int(x))
+        scal.append((x, "pyint", np.shape(v), float(v) if np.shape(v) == () else float("nan")))
+    hist = []
+    for plan in plans:
+        rep.count("lagr_history(results kept across calls)=%s/%d-D" % (plan["container"], len(plan["shape"])))
+        obs, problems = G.run_history(p, plan)
+        hist.append((plan, obs, problems))
+    return scal, hist
+
+
 def part_lagrange(rep, rng, drv, tier, A, cases=None):
     sizes = [1, 1, 2, 2, 3, 3, 4, 5, 6, 7, 8, 10, 12, 15, 19, 25]
     n_sets = 120 if tier == "quick" else 2500
@@ -138,18 +192,33 @@ def part_lagrange(rep, rng, drv, tier, A, cases=None):
                 violate(rep, what="lagrange_interpolate raised on distinct finite nodes", error=repr(e), input=inp,
                             call="opda.approximation.lagrange_interpolate(xs, ys)")
                 continue
+            # usage axes: scalar queries next to nodes; results kept across calls of the same callable (after the array
+            # evaluations above, so that those are what they always were)
+            near, ints, pool, plans = usage_queries(xs, inp)
+            try:
+                scal, hist = usage_probe(rep, p, near, ints, plans)
+            except Exception as e:  # noqa: BLE001
+                violate(rep, what="the interpolant raised on a scalar query / a repeated query of the same shape",
+                        error=repr(e), input=inp, call="p = opda.approximation.lagrange_interpolate(xs, ys); p(q)")
+                scal, hist = [], []
         if not shapes_ok:
             violate(rep, what="lagrange_interpolate result is not shape-preserving: " + why, input=inp,
                         call="opda.approximation.lagrange_interpolate(xs, ys)(q)")
+        n_main = len(qs)
+        qs = list(qs)
+        for x in [t[0] for t in near] + pool:
+            if x not in qs[n_main:]:
+                qs.append(x)
         reqs.append(("approx.lagr", "%s %s %s" % (C.flist(xs), C.flist(ys), C.flist(qs))))
-        meta.append((inp, xs, ys, qs, impl, implp, perm))
+        meta.append((inp, xs, ys, qs, impl, implp, perm, n_main, scal, hist))
     replies = drv.run(reqs)
-    for (inp, xs, ys, qs, impl, implp, perm), r in zip(meta, replies):
+    for (inp, xs, ys, qs, impl, implp, perm, n_main, scal, hist), r in zip(meta, replies):
         if r is None:
             rep.disagree(op="lagr", note="model rejected a valid node set", input=inp)
             continue
         node_val = dict(zip(xs, ys))
-        for j, x in enumerate(qs):
+        judge_usage(rep, inp, xs, qs, r, node_val, scal, hist)
+        for j, x in enumerate(qs[:n_main]):
             ev, ls, la = (C.parse_ext(t) for t in r[3 * j:3 * j + 3])
             if ev != ls:
                 rep.disagree(op="lagr", note="model: barycentric form and Lagrange sum differ (theorem broken?)", input=inp,
@@ -172,6 +241,66 @@ def part_lagrange(rep, rng, drv, tier, A, cases=None):
                                      "1e-13*sum_j|y_j l_j(x)|" + (" (permuted node order)" if tag else ""),
                                 input=dict(inp, x=C.fhex(x), perm=perm if tag else None), expected=float(ev), observed=val,
                                 tolerance=float(REL * la), call="opda.approximation.lagrange_interpolate(xs, ys)(x)")
+
+
+def judge_usage(rep, inp, xs, qs, r, node_val, scal, hist):
+    """verdicts for the usage axes, by the same clause and the same exact oracle as the array evaluations"""
+    exact = {}
+    for j, x in enumerate(qs):
+        exact[x] = (C.parse_ext(r[3 * j]), C.parse_ext(r[3 * j + 2]))
+    for x in xs:
+        exact.setdefault(x, (Fr(node_val[x]), None))
+
+    def key_of(x):
+        gap = min(abs(x - xj) for xj in xs)
+        return "C18-lagrange-subnormal-gap" if 0.0 < gap < SUBNORMAL else None
+    reported = 0
+    for x, kind, shp, val in scal:
+        rep.case(("lagr-scalar", tuple(inp["xs"]), tuple(inp["ys"]), x, kind))
+        ev, la = exact[x]
+        bad = ("shape-preserving on scalars: a scalar query gave shape %r" % (shp,), None, None) if shp != () else \
+            misjudged(val, x, ev, la, node_val)
+        if bad is not None and reported < 1:
+            reported += 1
+            violate(rep, finding_key=key_of(x), what=bad[0] + " (scalar query, container: %s)" % kind,
+                    input=dict(inp, x=C.fhex(x), container=kind), x_float=x, expected=bad[1], observed=val, tolerance=bad[2],
+                    nearest_node_distance=min(abs(x - xj) for xj in xs),
+                    call="p = opda.approximation.lagrange_interpolate(xs, ys); p(%s)"
+                         % {"pyfloat": "float(x)", "pyint": "int(x)", "np.float64": "np.float64(x)"}.get(kind, "np.array(x)"))
+    def call_of(plan):
+        return ("p = opda.approximation.lagrange_interpolate(xs, ys); R = [p(q) for q in queries]  # every q a %s of shape "
+                "%r; look at R only afterwards" % (plan["container"], tuple(plan["shape"])))
+    # every kept value against the exact interpolant (a few replays per case; every value is judged and counted)
+    for plan, obs, problems in hist:
+        done = reported >= 3
+        for o in obs:
+            for x, val in zip(o["xs"], o["values"]):
+                rep.case(("lagr-history", tuple(inp["xs"]), tuple(inp["ys"]), str(plan), o["stage"], o["call"], x))
+                rep.count("lagr_history_values_judged")
+                ev, la = exact[x]
+                bad = misjudged(val, x, ev, la, node_val)
+                if bad is not None:
+                    rep.count("lagr_history_values_wrong")
+                if bad is not None and not done:
+                    done = True
+                    reported += 1
+                    violate(rep, finding_key=key_of(x),
+                            what=bad[0] + " — the value returned by call %d of a sequence of equally shaped queries on one "
+                                          "interpolant, %s" % (o["call"], o["stage"]),
+                            input=dict(inp, x=C.fhex(x), history=G.plan_repr(plan), call_index=o["call"], stage=o["stage"]),
+                            x_float=x, expected=bad[1], observed=val, tolerance=bad[2], call=call_of(plan))
+    # shapes in repeated calls; returned objects that share memory (with each other or with the caller's query)
+    structural = 0
+    for plan, obs, problems in hist:
+        for kind, detail in problems:
+            rep.case(("lagr-history-" + kind, tuple(inp["xs"]), tuple(inp["ys"]), str(plan)))
+            rep.count("lagr_history_problem=" + kind)
+            if structural >= 1:
+                continue
+            structural += 1
+            violate(rep, what=("interpolant is not shape-preserving in a repeated call: " if kind == "shape" else
+                               "values returned by the interpolant are not independent values (" + kind + "): ") + detail,
+                    input=dict(inp, history=G.plan_repr(plan)), call=call_of(plan))
 
 
 def check_shapes(p, qs):
@@ -547,7 +676,12 @@ def run(seed, tier, replay=None):
         rule="A: node sets of 1-25 distinct finite points (uniform / clustered to 1e-6 / Chebyshev / equispaced / integer / "
              "mixed, scaled and shifted, shuffled), values (random, polynomial, 1e-8..1e8, zeros, constant, alternating), "
              "queries = every node, float neighbours of nodes, interior, slight extrapolation; each compared for the original "
-             "and a permuted node order.  B: (f, a, b, n<=15, atol, transform in {(-1,1),(0,1),(a,1),None}) from the C17 "
+             "and a permuted node order; the interpolant is also used as a caller would: scalar queries (Python float, numpy "
+             "scalar, 0-d array; Python int at integral nodes) at distances {1e-10..1e-6}*spread and {1e-9,1e-8} on both sides "
+             "of up to 3 nodes, and sequences of equally shaped queries (scalars, lists, 1-/2-/3-D arrays) on one interpolant "
+             "whose results are kept without copying, one overwritten in place by the caller, the query array refilled in "
+             "place - every value handed out is judged by the same clause against the exact interpolant, and returned objects "
+             "must not share memory.  B: (f, a, b, n<=15, atol, transform in {(-1,1),(0,1),(a,1),None}) from the C17 "
              "family.  C: f in {x^k, exp}, degree tuples (quick: 1-3 pieces, degrees 0-3; thorough: 1-6 pieces, degrees 0-6). "
              "distinct = distinct (check, input, query).",
         extra=dict(driver_lines=drv.lines))
